@@ -8,9 +8,9 @@ git diff -- src > _scratch/patch.diff
 export PYTHONPATH=$WT/src
 /venv/bin/python _scratch/demo.py >/tmp/sv.$$ 2>&1; RC_WITH=$?
 /venv/bin/python -m pytest -q -p no:cacheprovider --timeout=900 tests 2>&1 | tail -1 > /tmp/svt.$$
-git stash -q
+git checkout -- src   # (git stash is shared between worktrees of one repository: never use it here)
 /venv/bin/python _scratch/demo.py >/tmp/sv2.$$ 2>&1; RC_WITHOUT=$?
-git stash pop -q
+git apply _scratch/patch.diff
 echo "demo with change rc=$RC_WITH; without rc=$RC_WITHOUT; tests: $(cat /tmp/svt.$$)"
 if [ $RC_WITH -ne 0 ] && [ $RC_WITHOUT -eq 0 ] && grep -q "387 passed" /tmp/svt.$$; then
   mkdir -p /verif/seeded/$NAME
